@@ -63,7 +63,7 @@ PROPS["C02"] = _hist(
 
 PROPS["C03"] = _hist(
     "C03", ["C03"],
-    dict(classes=("real", "real", "bin", "long"), long=True, pool=(8, 14, 24),
+    dict(classes=("real", "real", "bin", "long", "text"), encodings=("utf-8", "latin-1"), long=True, pool=(8, 14, 24),
          weights={"add_page": 2, "add_pages": 1, "add_links": 8, "batch": 6, "create": 2, "addp": 1, "rule": 1, "reopen": 1}),
     "link-heavy histories (repeated pairs inside and across calls, self-links, pages that are source and target in one batch, "
     "empty target lists, add_links and index_batch_crawl interleaved with page/webentity/rule writes touching the same blocks); "
@@ -78,7 +78,7 @@ PROPS["C03"] = _hist(
 
 PROPS["C04"] = _hist(
     "C04", ["C04"],
-    dict(classes=("real", "real", "deep", "bin", "long"), long=True, pool=(10, 20, 30),
+    dict(classes=("real", "real", "deep", "bin", "long", "text"), encodings=("utf-8", "latin-1"), long=True, pool=(10, 20, 30),
          weights={"add_page": 4, "add_links": 2, "create": 6, "delete": 3, "addp": 5, "rmp": 3, "mvp": 3, "rule": 1, "rmrule": 1, "reopen": 1}),
     "prefix-edit-heavy histories (create / delete incl. subsets / add / remove / move, automatic and rule-driven creation) with "
     "nested, sibling and same-webentity-nested prefixes; every audit resolves pages, stored stem-prefixes and absent neighbours "
@@ -93,7 +93,7 @@ PROPS["C04"] = _hist(
 
 PROPS["C05"] = _hist(
     "C05", ["C05"],
-    dict(classes=("real", "real", "deep", "bin"), pool=(12, 24, 40),
+    dict(classes=("real", "real", "deep", "bin", "long", "text"), long=True, encodings=("utf-8", "latin-1"), pool=(12, 24, 40),
          weights={"add_page": 6, "add_links": 3, "batch": 2, "create": 5, "delete": 2, "addp": 4, "rmp": 2, "mvp": 2, "rule": 1}),
     "histories with pages on, above and below prefixes and nested webentities; for every webentity (prefixes shuffled) "
     "get_webentity_pages and get_webentity_crawled_pages are compared with the pages the model resolves to it, and the union over "
@@ -106,7 +106,7 @@ PROPS["C05"] = _hist(
 
 PROPS["C06"] = _hist(
     "C06", ["C06", "C04"],
-    dict(classes=("real", "real", "deep", "long"), long=True, pool=(12, 24, 40), rule_prob=0.9,
+    dict(classes=("real", "real", "deep", "long", "text"), encodings=("utf-8", "latin-1"), long=True, pool=(12, 24, 40), rule_prob=0.9,
          weights={"add_page": 8, "add_pages": 2, "add_links": 3, "batch": 2, "create": 2, "delete": 2, "addp": 1, "rmp": 1,
                   "rule": 4, "rmrule": 2, "reopen": 1}),
     "histories under every default rule x 0-3 anchored rules (path1-4, subdomain) with rule install/remove/replace churn on "
@@ -122,7 +122,7 @@ PROPS["C06"] = _hist(
 
 PROPS["C07"] = _hist(
     "C07", ["C07"],
-    dict(classes=("real", "real", "deep", "bin"), pool=(10, 20, 30),
+    dict(classes=("real", "real", "deep", "bin", "long", "text"), long=True, encodings=("utf-8", "latin-1"), pool=(10, 20, 30),
          weights={"add_page": 3, "add_links": 7, "batch": 4, "create": 4, "delete": 2, "addp": 3, "rmp": 2, "mvp": 1, "rule": 1}),
     "histories with unresolved pages (LRUs the default rule does not match), nested prefixes and links across and inside "
     "webentities; both network variants x 2 directions x include_auto are compared with model links pushed through model "
@@ -136,7 +136,7 @@ PROPS["C07"] = _hist(
 
 PROPS["C08"] = _hist(
     "C08", ["C08"],
-    dict(classes=("real", "real", "deep", "bin"), pool=(10, 20, 30), rule_prob=0.8,
+    dict(classes=("real", "real", "deep", "bin", "long", "text"), long=True, encodings=("utf-8", "latin-1"), pool=(10, 20, 30), rule_prob=0.8,
          weights={"add_page": 3, "add_links": 7, "batch": 4, "create": 4, "delete": 2, "addp": 3, "rmp": 2, "mvp": 1, "rule": 2}),
     "same state space as C07; for every webentity (prefixes shuffled) get_webentity_pagelinks under all 7 switch settings is "
     "compared as a multiset of (source,target,weight) with the model, and the cited / citing webentity sets with the "
@@ -149,7 +149,7 @@ PROPS["C08"] = _hist(
 
 PROPS["C13"] = _hist(
     "C13", ["C13"],
-    dict(classes=("real", "deep", "deep"), pool=(10, 20, 30), rule_prob=0.7,
+    dict(classes=("real", "deep", "deep", "long", "text"), long=True, encodings=("utf-8", "latin-1"), pool=(10, 20, 30), rule_prob=0.7,
          weights={"add_page": 7, "add_links": 2, "batch": 4, "create": 4, "delete": 2, "addp": 4, "rmp": 1, "mvp": 3, "rule": 3, "rmrule": 1, "reopen": 1}),
     "histories that insert pages first (paths exist unmarked) and then attach deeper prefixes by each of the five routes "
     "(explicit create, add prefix, move, automatic on insertion, rule installation), parents created after children; for every "
@@ -163,7 +163,7 @@ PROPS["C13"] = _hist(
 
 PROPS["C19"] = _hist(
     "C19", ["C19"],
-    dict(classes=("long", "real", "long", "bin"), long=True, pool=(10, 20, 30), rule_prob=0.85,
+    dict(classes=("long", "real", "long", "bin", "text"), encodings=("utf-8", "latin-1"), long=True, pool=(10, 20, 30), rule_prob=0.85,
          weights={"add_page": 6, "add_pages": 2, "add_links": 4, "batch": 3, "create": 4, "addp": 2, "rule": 3, "rmrule": 1, "rmp": 1, "reopen": 1}),
     "histories over every listed stem length (73..1000) with heavy re-submission; after EVERY request both store sizes are "
     "compared with 1 + sum(ceil(len(last stem)/74)) over the model's stem-prefixes and 1 + 2*submissions, the decoder looks for "
@@ -177,7 +177,7 @@ PROPS["C19"] = _hist(
 
 PROPS["C20"] = _hist(
     "C20", ["C20"],
-    dict(classes=("real", "deep", "real"), pool=(10, 20, 30),
+    dict(classes=("real", "deep", "real", "long", "text"), long=True, encodings=("utf-8", "latin-1"), pool=(10, 20, 30),
          weights={"add_page": 4, "add_links": 8, "batch": 4, "create": 3, "addp": 2, "delete": 1, "rule": 1}),
     "link-heavy histories; for every webentity, k in {1,2,3,5,10,n+1} and depth limit in {none,0,1,2} the answer must be a "
     "correct top-k of the eligible pages under the true number of distinct inbound source pages (0 for unlinked pages). "
@@ -190,7 +190,7 @@ PROPS["C20"] = _hist(
 
 PROPS["C12"] = _hist(
     "C12", ["C12", "C04"],
-    dict(classes=("real", "real", "deep"), pool=(10, 20, 30), backends=("file", "file", "memory"), rule_prob=0.7,
+    dict(classes=("real", "real", "deep", "long", "text"), long=True, encodings=("utf-8", "latin-1"), pool=(10, 20, 30), backends=("file", "file", "memory"), rule_prob=0.7,
          weights={"add_page": 6, "add_links": 2, "batch": 1, "create": 6, "delete": 5, "addp": 1, "rmp": 2, "rule": 2, "rmrule": 1,
                   "reopen": 4, "clear": 1}),
     "creation/deletion churn (explicit, automatic, rule-driven) with close/reopen at random positions and clear; the id monitor at "
